@@ -5,7 +5,8 @@
 (*   fit  {rows, ys, ws}             one base-estimator fit (rows carry their id)        *)
 (*   fitted {m} | raised {err}       fit returned / raised                               *)
 (*   predict {x, all, mean_m, sorted}  per probe: predict_all row, m*predict, sorted row *)
-(* A fit event must consume a pending draw with exactly those rows, targets and weights. *)
+(* Every fit is trained on rows of the training set with their own targets and weights; *)
+(* a fit whose rows are those of a recorded randint call pins that call down as its draw. *)
 EXTENDS Integers, Sequences, FiniteSets, TraceKit
 VARIABLES tid, l, pending, fits
 T   == Batch[tid]
@@ -20,25 +21,29 @@ SameBag(s, t) == Len(s) = Len(t) /\ \A v \in {s[j] : j \in 1 .. Len(s)} :
 TInit == tid \in 1 .. Len(Batch) /\ l = 1 /\ pending = <<>> /\ fits = <<>>
 Go == l' = l + 1 /\ UNCHANGED tid
 Want == SizeOf(T.n, T.a, T.b)
+\* How the indices are drawn is the implementation's business (one global randint per estimator, one generator per
+\* estimator, ...): a randint call is only *evidence*.  It is kept as pending; a fit that was trained on exactly the
+\* rows of a pending call identifies that call as its bootstrap draw, and then the draw must have been over all n rows.
 TDraw == /\ l <= NEv /\ Ev.a = "draw"
-         /\ Require(Ev.low = 0 /\ Ev.high = T.n, T.id, "EligibleAll", l, [low |-> Ev.low, high |-> Ev.high, n |-> T.n])
-         /\ Require(Ev.size = Want /\ Len(Ev.idx) = Want, T.id, "SizeExact", l, [got |-> Ev.size, want |-> Want])
-         /\ pending' = Append(pending, Ev.idx) /\ UNCHANGED fits /\ Go
-Match(j) == /\ pending[j] = Ev.rows
-            /\ Ev.ys = [q \in 1 .. Len(Ev.rows) |-> T.y[Ev.rows[q] + 1]]
-            /\ (T.weighted => Ev.ws = [q \in 1 .. Len(Ev.rows) |-> T.w[Ev.rows[q] + 1]])
-            /\ (~T.weighted => Ev.ws = <<>>)
+         /\ pending' = Append(pending, [idx |-> Ev.idx, low |-> Ev.low, high |-> Ev.high]) /\ UNCHANGED fits /\ Go
+RowsOK == \A q \in 1 .. Len(Ev.rows) : Ev.rows[q] \in 0 .. T.n - 1
+AlignedFit == /\ RowsOK
+              /\ Ev.ys = [q \in 1 .. Len(Ev.rows) |-> T.y[Ev.rows[q] + 1]]
+              /\ (T.weighted => Ev.ws = [q \in 1 .. Len(Ev.rows) |-> T.w[Ev.rows[q] + 1]])
+              /\ (~T.weighted => Ev.ws = <<>>)
+Match(j) == pending[j].idx = Ev.rows
 TFit == /\ l <= NEv /\ Ev.a = "fit"
+        /\ Require(RowsOK /\ AlignedFit, T.id, "Aligned", l, [rows |-> Ev.rows, ys |-> Ev.ys, ws |-> Ev.ws])
         /\ IF \E j \in 1 .. Len(pending) : Match(j)
            THEN LET j == CHOOSE j \in 1 .. Len(pending) : Match(j) IN
-                pending' = [q \in 1 .. Len(pending) - 1 |-> IF q < j THEN pending[q] ELSE pending[q + 1]]
-           ELSE Failed(T.id, "Aligned", l, [rows |-> Ev.rows, ys |-> Ev.ys, ws |-> Ev.ws, pending |-> pending]) /\ UNCHANGED pending
+                /\ Require(pending[j].low = 0 /\ pending[j].high = T.n, T.id, "EligibleAll", l,
+                           [low |-> pending[j].low, high |-> pending[j].high, n |-> T.n])
+                /\ pending' = [q \in 1 .. Len(pending) - 1 |-> IF q < j THEN pending[q] ELSE pending[q + 1]]
+           ELSE UNCHANGED pending
         /\ Require(Len(Ev.rows) = Want, T.id, "SizeExact", l, [got |-> Len(Ev.rows), want |-> Want])
-        /\ Require(\A q \in 1 .. Len(Ev.rows) : Ev.rows[q] \in 0 .. T.n - 1, T.id, "Aligned", l, [rows |-> Ev.rows])
         /\ fits' = Append(fits, SumS(Ev.ys, 1)) /\ Go
 TFitted == /\ l <= NEv /\ Ev.a = "fitted"
            /\ Require(Len(fits) = T.m /\ Ev.m = T.m, T.id, "OneModelPerEstimator", l, [fits |-> Len(fits), m |-> T.m])
-           /\ Require(pending = <<>>, T.id, "Aligned", l, [unused_draws |-> Len(pending)])
            /\ UNCHANGED <<pending, fits>> /\ Go
 TRaised == /\ l <= NEv /\ Ev.a = "raised"
            /\ Failed(T.id, "FitSucceeds", l, [err |-> Ev.err, n |-> T.n])
